@@ -39,7 +39,7 @@ def translate(repo):
             raise ShapeChanged("%s: emitted require call: keyword part changed" % RM)
         kws.append((const_str(k.args[0], "keyword"), ast.unparse(v)))
     want = [("target_module_name", "String(compiler.module.__name__)"),
-            ("assignments", "String('EXPORTS') if assignments == 'EXPORTS' else List([List([String(k), String(v)]) "
+            ("assignments", "String(assignments) if assignments in ('ALL', 'EXPORTS') else List([List([String(k), String(v)]) "
                             "for k, v in assignments])"),
             ("prefix", "String(prefix)")]
     if kws != want:
@@ -53,6 +53,29 @@ def translate(repo):
     if ast.unparse(ct[0].args[0]) != "module_name" or ctk != [("assignments", "assignments"), ("compiler", "compiler"),
                                                                ("prefix", "prefix")]:
         raise ShapeChanged("%s: compile-time require call arguments are %r" % (RM, ctk))
+    # `prefix, assignments = assignment_shape(module, rest)` must be followed by `if prefix: assignments = "ALL"`
+    # (ImporterModel.require_shape)
+    found = False
+    for n in ast.walk(fn):
+        body = getattr(n, "body", None)
+        if not isinstance(body, list):
+            continue
+        for st, nxt in zip(body, body[1:]):
+            if isinstance(st, ast.Assign) and ast.unparse(st) == "prefix, assignments = assignment_shape(module, rest)":
+                if not (isinstance(nxt, ast.If) and ast.unparse(nxt.test) == "prefix" and not nxt.orelse
+                        and len(nxt.body) == 1 and ast.unparse(nxt.body[0]) == "assignments = 'ALL'"):
+                    raise ShapeChanged("%s: compile_require: the prefixed-require override `if prefix: assignments = \"ALL\"` "
+                                       "does not follow the assignment_shape call" % RM)
+                found = True
+    if not found:
+        raise ShapeChanged("%s: compile_require: `prefix, assignments = assignment_shape(module, rest)` not found" % RM)
+    # nothing else in compile_require assigns `assignments` or `prefix` after that
+    stores = [ast.unparse(n) for n in ast.walk(fn) if isinstance(n, (ast.Assign, ast.AugAssign))
+              and any(isinstance(t, ast.Name) and t.id in ("assignments", "prefix")
+                      for tt in (n.targets if isinstance(n, ast.Assign) else [n.target]) for t in ast.walk(tt))]
+    if sorted(stores) != sorted(["prefix, assignments = assignment_shape(module, rest)", "assignments = 'ALL'",
+                                 "module, assignments = entry"]):
+        raise ShapeChanged("%s: compile_require: assignments to `assignments`/`prefix` are %r" % (RM, stores))
     shape_lits = string_constants(body_without_docstring(top_func(tree, "assignment_shape", RM)))
     mtree, _ = parse_py(repo, MA)
     req = top_func(mtree, "require", MA)
